@@ -179,7 +179,7 @@ func verifHarnessC04WriteFile() {
 	old := nondetSeq("old.content")
 	var oldIno *verifInode
 	if exists {
-		oldIno = &verifInode{content: old, complete: true, durable: old, durableOK: true, mode: 0600, written: true}
+		oldIno = &verifInode{content: old, complete: true, durable: old, durableOK: true, mode: os.FileMode(nondetU32("old.mode") & 0777), written: true}
 		verifFS.files[path] = oldIno
 	}
 	data := nondetSeq("new.content")
